@@ -60,7 +60,9 @@ Twin(t) == IF t.k = "BoundaryType" THEN { [t EXCEPT !.v[4] = IF t.v[4] = "in" TH
 (* the same class once plain and once with type arguments (Crate / Crate[int]): two constructors that share name and qualified name *)
 SameName(t) == IF t.k = "NamedSequenceType" THEN { T("NamedType", t.n, <<>>, <<>>) }
                ELSE IF t.k = "NamedType" THEN { T("NamedSequenceType", t.n, << T("NamedType", "B", <<>>, <<>>) >>, <<>>) } ELSE {}
-Related(t) == {t} \cup Swap(t) \cup Dup(t) \cup Replace(t) \cup OtherKind(t) \cup SwapV(t) \cup Twin(t) \cup SameName(t)
+(* a literal 1 / 0 next to the literal True / False: Python's == identifies them, so whatever == says, the hashes must follow it *)
+BoolInt(t) == IF t.k = "LiteralType" THEN { [t EXCEPT !.v = [ j \in 1..Len(t.v) |-> IF t.v[j] = "i:1" THEN "b:true" ELSE IF t.v[j] = "b:true" THEN "i:1" ELSE t.v[j] ]] } \ {t} ELSE {}
+Related(t) == BoolInt(t) \cup {t} \cup Swap(t) \cup Dup(t) \cup Replace(t) \cup OtherKind(t) \cup SwapV(t) \cup Twin(t) \cup SameName(t)
 
 (* ---- the intended algebra ---- *)
 \* a canonical, order-free key of a term: sequence-like constructors compare their elements as multisets
@@ -107,7 +109,7 @@ Rel(a, b) == IF a = b THEN "same"
              ELSE IF b \in Swap(a) \cup SwapV(a) THEN "permuted"
              ELSE IF b \in Dup(a) THEN "duplicated-element"
              ELSE IF b \in Twin(a) THEN "boundary-twin"
-             ELSE IF b \in OtherKind(a) THEN "other-constructor" ELSE IF b \in SameName(a) THEN "same-name-other-constructor" ELSE "element-replaced"
+             ELSE IF b \in OtherKind(a) THEN "other-constructor" ELSE IF b \in SameName(a) THEN "same-name-other-constructor" ELSE IF b \in BoolInt(a) THEN "int-vs-bool-literal" ELSE "element-replaced"
 Inner(t) == IF Len(t.a) = 0 THEN "" ELSE "<" \o t.a[1].k \o ">"
 Judge(p, obs) ==
   LET a == p.a
